@@ -28,6 +28,7 @@ func runC13(c *Ctx) {
 	c.Clause("C13.3 peer transport parameters are stored only after connection-ID authentication (ISCID, ODCID, Retry SCID both ways); unexpected-SCID Initials, client-side 0-RTT and wrong-version long headers are dropped before unpacking")
 	c.Clause("C13.4 run loop: the blocking select has close and timer cases; handshake timeout and idle checks reach destroyImpl")
 	c.Clause("C13.5 0-RTT rejection resets streams map, framer, connection flow controller and sent-packet state")
+	c.Clause("C13.6 ResetForRetry requeues the outstanding 0-RTT packets on every path")
 	c.NotCovered("convergence of both endpoints; exactly-once delivery of accepted 0-RTT data")
 	c.NotCovered("timing of the handshake timeouts")
 
@@ -36,6 +37,7 @@ func runC13(c *Ctx) {
 	c.rule("C13.3", func() { c13TP(c) })
 	c.rule("C13.4", func() { c13Run(c) })
 	c.rule("C13.5", func() { c13ZeroRTT(c) })
+	c.rule("C13.6", func() { c13RetryRequeues0RTT(c) })
 }
 
 func c13Retry(c *Ctx) {
